@@ -207,12 +207,37 @@ Theorem C17_cb_is_head_of_local :
 Proof. exact cb_is_head_of_local. Qed.
 Print Assumptions C17_cb_is_head_of_local.
 
+(* The event bits of the code as it is (since 5f75e89), for EVERY inotify mask: UV_CHANGE is set iff
+   the mask has IN_ATTRIB or IN_MODIFY; UV_RENAME is set iff it has a bit other than
+   IN_ATTRIB|IN_MODIFY|IN_ISDIR; nothing else is ever set. *)
+Theorem C17_event_bits : forall mask,
+  let change := Z.land mask IN_ATTRIB <> 0 \/ Z.land mask IN_MODIFY <> 0 in
+  let rename := Z.land mask (Z.lnot (Z.lor (Z.lor IN_ATTRIB IN_MODIFY) IN_ISDIR)) <> 0 in
+  (change -> rename -> ev_bits mask = UV_CHANGE + UV_RENAME) /\
+  (change -> ~ rename -> ev_bits mask = UV_CHANGE) /\
+  (~ change -> rename -> ev_bits mask = UV_RENAME) /\
+  (~ change -> ~ rename -> ev_bits mask = 0).
+Proof. exact ev_bits_spec. Qed.
+Print Assumptions C17_event_bits.
+
+(* in particular: chmod / content change of a watched directory (IN_ATTRIB|IN_ISDIR, IN_MODIFY|IN_ISDIR)
+   is exactly UV_CHANGE; create (256), delete (512), moved-from (64), moved-to (128) of a subdirectory
+   are UV_RENAME; delete-self (1024) and IN_IGNORED (32768) are UV_RENAME.  Last line: the failing input
+   of the repaired finding fs_event_attrib_on_directory_reports_rename_too -- the mapping before
+   5f75e89 gave UV_CHANGE|UV_RENAME for chmod of a directory. *)
+Example C17_event_bits_directory_subjects :
+  ev_bits (Z.lor IN_ATTRIB IN_ISDIR) = UV_CHANGE /\ ev_bits (Z.lor IN_MODIFY IN_ISDIR) = UV_CHANGE /\
+  ev_bits (Z.lor 256 IN_ISDIR) = UV_RENAME /\ ev_bits (Z.lor 512 IN_ISDIR) = UV_RENAME /\
+  ev_bits (Z.lor 64 IN_ISDIR) = UV_RENAME /\ ev_bits (Z.lor 128 IN_ISDIR) = UV_RENAME /\
+  ev_bits IN_ATTRIB = UV_CHANGE /\ ev_bits 1024 = UV_RENAME /\ ev_bits 32768 = UV_RENAME /\
+  ev_bits_old (Z.lor IN_ATTRIB IN_ISDIR) = UV_CHANGE + UV_RENAME.
+Proof. exact ev_bits_examples. Qed.
+
 (* C17_event_reaches_all -- full.  In any state s reached by any script (any kernel answers,
    events, callback behaviours), for any event (wd, mask, name) whose watcher list is w and any
    behaviour [beh] of the callbacks made while this event is dispatched: every handle h that is in
    the list when dispatch starts and that no callback stops or closes gets EXACTLY ONE callback,
-   with the event's name (or the list's base name), the mapped bits (ev_bits: UV_CHANGE for
-   IN_ATTRIB|IN_MODIFY, UV_RENAME for anything else) and while it is active -- whatever else the
+   with the event's name (or the list's base name), the mapped bits (ev_bits, see C17_event_bits) and while it is active -- whatever else the
    callbacks do (start/stop/close of other handles on the same path, start of h itself). *)
 Theorem C17_event_reaches_all :
   forall os0 beh0 wd mask nm w beh cnt h,
